@@ -597,6 +597,9 @@ func (x *Exec) applyContract(s *State, c *Contract, key string, sig *types.Signa
 	if c.Allocates {
 		na := s.fresh("$alloc", "Int")
 		s.assume(app("Bool", ">=", na, s.alloc))
+		if c.AllocPlain {
+			s.assume(w.plainGap(s.alloc, na))
+		}
 		if x.externalKey(key) {
 			// code outside the verified packages allocates no objects of dig's struct types
 			s.assume(Term{fmt.Sprintf("(forall ((r!x Int)) (! (=> (and (< %s r!x) (<= r!x %s)) (= (typetag r!x) 0)) :pattern ((typetag r!x)) :qid extalloc))", s.alloc.S, na.S), "Bool"})
@@ -862,6 +865,10 @@ func (x *Exec) resolveLocs(pkg *types.Package, locs []string) []string {
 			if strings.HasPrefix(inner, "ptr(") {
 				// ptr(T) is the expression-level spelling of *T
 				inner = "*" + strings.TrimSuffix(strings.TrimPrefix(inner, "ptr("), ")")
+			}
+			if kind == "elems" && (inner == "any" || inner == "interface{}") {
+				out = append(out, w.elemArray(types.NewInterfaceType(nil, nil)))
+				continue
 			}
 			var t types.Type
 			if ft := x.fieldType(pkg, inner); ft != nil {
